@@ -28,6 +28,7 @@ PY_EXC = {0: None, 1: "GenericError", 2: "NoParticles", 3: "Encounter", 4: "Esca
 STATUS_NAMES = {-10: "SINGLE_STEP", -5: "SCREENSHOT_READY", -4: "SCREENSHOT", -3: "PAUSED", -2: "LAST_STEP", -1: "RUNNING",
                 0: "SUCCESS", 1: "GENERIC_ERROR", 2: "NO_PARTICLES", 3: "ENCOUNTER", 4: "ESCAPE", 5: "USER", 6: "SIGINT",
                 7: "COLLISION"}
+NAN_GUARD = [False]   # does reb_simulation_integrate refuse a NaN target (fixes/C08-nan-target.diff)?  set from the source by run()
 CAP = 400          # in-process step cap per call (heartbeat calls reb_simulation_stop; the model gets the same flag)
 F_COLL, F_USER, F_ESC, F_ENC, F_SIGINT, F_ERR, F_STEPERR = 1, 2, 4, 8, 16, 32, 64
 
@@ -145,7 +146,8 @@ def model_line(kind, rec, is_bs=False, n_odes=0, fuel=None):
     t, dt, dld, status, steps = rec["pre"]
     beats, flags = rec["beats"], rec["flags"]
     tmax = rec["tmax"]
-    toks = ["I", kind, str(rec["exact"]), d2h(tmax), "1" if tmax == math.inf else "0", d2h(t), d2h(dt), d2h(dld), str(status),
+    toks = ["I", kind, str(rec["exact"]), d2h(tmax), str((1 if tmax == math.inf else 0) + (2 if NAN_GUARD[0] else 0)), d2h(t), d2h(dt), d2h(dld),
+            str(status),
             str(steps), str(n_odes), "1" if is_bs else "0", str(fuel if fuel is not None else len(beats) + 5), str(len(flags))]
     toks += ["%d:%d" % (m, n) for m, n in flags]
     orc = []
@@ -520,6 +522,8 @@ def run(c):
             c.corr_break("time bookkeeping of integrator %s is '%s' in the source, model runs it as '%s'" % (k, kind, KIND[k]), list(sig))
     c.cov["step_kinds_unrecognised"] = [k for k, v in info["kinds"].items() if v[0] is None]
     has_guard = info["has_progress_guard"]
+    NAN_GUARD[0] = info["has_nan_guard"]
+    c.cov["nan_target_check_in_source"] = NAN_GUARD[0]
     c.cov["no_progress_guard_in_source"] = has_guard
 
     c.prove(["RV.Props.C08"])
@@ -1220,6 +1224,493 @@ def run(c):
                 check_dt_restored_on_exit(integ, rec, fails, gstats, "encounter-collision")
             c.count(("encounter-collision", integ, last))
     c.cov["collisions_inside_encounter_substeps"] = mstats
+
+    # ------------------------------------------------------------------ X: cross-cutting configuration dimensions x core oracles
+    # Every case below goes through the model tie (record) and the time / step-size contract (check_contract); status cases also through
+    # first_firing.  `dims[name]` counts evaluated cases per dimension; a dimension that stays at zero is a broken obligation.
+    c.log("section dimensions")
+    import pickle
+    dims, dim_errors = {}, {}
+    DIM_NAMES = ["roles:N_active<N", "roles:testparticle_type1", "roles:single_active_body", "roles:zero_mass_active",
+                 "variational:first_order_nonzero", "variational:second_order", "variational:megno", "variational:escape_ignores_var",
+                 "options:safe_mode0", "options:keep_unsynchronized", "options:whfast_coordinates_kernel_corrector", "options:saba_type",
+                 "options:eos_phi", "options:mercurius_L_rcrit", "options:trace_peri", "options:G_softening", "options:janus_scales",
+                 "time:reversal_between_calls", "time:step_longer_than_period", "time:huge_t_over_dt", "time:tmax_minus_inf",
+                 "time:nan_target", "time:dt_sign_vs_target_all_integrators",
+                 "callbacks:pre_post_modifications", "callbacks:additional_forces", "callbacks:python_collision_resolve",
+                 "callbacks:heartbeat_edits_status", "callbacks:post_modification_edits_dt",
+                 "history:integrator_switch", "history:particles_added_removed", "history:explicit_synchronize",
+                 "restore:copy", "restore:pickle", "restore:file", "restore:archive",
+                 "geometry:moving_com", "geometry:open_boundary_removes_all", "geometry:merge_reduces_N",
+                 "python:positional", "python:keyword", "python:bool_and_int_values", "python:numpy_and_int_targets", "python:minus_zero_target",
+                 "scale:N_over_128"]
+
+    def dim(*names):
+        for nme in names:
+            dims[nme] = dims.get(nme, 0) + 1
+
+    def xcall(integ, sim, tmax, exact, tag, names, user_dt=None, **kw):
+        rec = H.call(sim, tmax, exact, **kw)
+        record(integ, rec, "dim:" + tag, is_bs=(integ == "bs"))
+        if rec["ret"] == 0:
+            check_contract(c, integ, rec, abs(user_dt if user_dt is not None else rec["pre"][1]), fails, worst)
+        dim(*names)
+        c.count(("dim", tag, integ, exact))
+        return rec
+
+    def attempt(names, fn):
+        try:
+            fn()
+        except Exception as e:      # a configuration the API refuses is not covered (and shows up as a zero count)
+            for nme in (names if isinstance(names, (list, tuple)) else [names]):
+                dim_errors[nme] = "%s: %s" % (type(e).__name__, str(e)[:120])
+
+    def planets(integ, rng, dt, n_test=0, tp_type=0, n_active=None, zero_mass_active=False, com_shift=False, G=1.0):
+        sim = rebound.Simulation()
+        sim.integrator = integ
+        sim.G = G
+        sim.add(m=1.0)
+        sim.add(m=(0.0 if zero_mass_active else rng.loguniform(1e-5, 1e-3)), a=1.0, e=rng.uniform(0, 0.1), f=rng.uniform(0, 6.28))
+        sim.add(m=rng.loguniform(1e-5, 1e-3), a=rng.uniform(1.8, 2.5), e=rng.uniform(0, 0.1), f=rng.uniform(0, 6.28))
+        for i in range(n_test):
+            sim.add(m=(0.0 if i % 2 == 0 else 1e-9), a=rng.uniform(3.0, 4.0) + 0.3 * i, f=rng.uniform(0, 6.28))
+        sim.move_to_com()
+        if n_active is not None:
+            sim.N_active = n_active
+        sim.testparticle_type = tp_type
+        if com_shift:
+            for p in sim.particles:
+                p.x += 100.0; p.y += 50.0; p.vx += 3.0; p.vy -= 1.0
+        sim.dt = dt
+        return sim
+
+    def targets_for(rng, dt):
+        sg = rng.choice([1, -1])
+        return sg, sg * abs(dt) * (rng.randint(2, 9) + rng.choice([0.0, 0.37, 0.5]))
+
+    xin = ["leapfrog", "whfast", "saba", "eos", "mercurius", "janus", "sei", "ias15", "bs", "trace", "none"]
+    xrep = 3 if thorough else 1
+    for rep in range(xrep):
+        # ---- 1 particle roles
+        for integ in ["whfast", "mercurius", "ias15", "leapfrog", "saba", "trace", "eos", "bs"]:
+            for role in ("N_active<N", "testparticle_type1", "single_active_body", "zero_mass_active"):
+                def f(integ=integ, role=role):
+                    rng = c.rng.fork()
+                    dt = rng.choice([0.05, 0.1]) * rng.choice([1, -1])
+                    sim = planets(integ, rng, dt, n_test=2, tp_type=(1 if role == "testparticle_type1" else 0),
+                                  n_active=(1 if role == "single_active_body" else 3), zero_mass_active=(role == "zero_mass_active"))
+                    sg, tmax = targets_for(rng, dt)
+                    if integ == "trace":
+                        tmax = abs(tmax)
+                    xcall(integ, sim, tmax, rng.choice([0, 1]), "roles", ["roles:" + role], user_dt=dt)
+                attempt("roles:" + role, f)
+        # ---- 2 variational particles with non-zero data
+        for integ in ["ias15", "whfast", "leapfrog"]:
+            def f(integ=integ):
+                rng = c.rng.fork()
+                dt = rng.choice([0.05, 0.02]) * rng.choice([1, -1])
+                sim = planets(integ, rng, dt)
+                var = sim.add_variation()
+                var.particles[1].x = 1e3; var.particles[1].vy = -7.0; var.particles[2].y = 5e2     # far outside any exit sphere
+                names = ["variational:first_order_nonzero", "variational:escape_ignores_var"]
+                if integ == "ias15":
+                    v2 = sim.add_variation(order=2, first_order=var)
+                    v2.particles[1].z = 2e3
+                    names.append("variational:second_order")
+                sim.exit_max_distance = 50.0          # real particles stay inside; variational data are not positions
+                sg, tmax = targets_for(rng, dt)
+                rec = xcall(integ, sim, tmax, rng.choice([0, 1]), "variational", names, user_dt=dt, conds=cond_fn(50.0, 0.0, False))
+                if rec["ret"] != 0:
+                    fails.append(("escape-counts-variational", "exit_max_distance fired although only variational particles are outside",
+                                  dict(integrator=integ, status=rec["ret"], N=sim.N, N_var=sim.N_var)))
+            attempt("variational:first_order_nonzero", f)
+
+            def g(integ=integ):
+                rng = c.rng.fork()
+                dt = rng.choice([0.05, 0.02])
+                sim = planets(integ, rng, dt)
+                sim.init_megno(seed=7)
+                sg, tmax = targets_for(rng, dt)
+                xcall(integ, sim, tmax, rng.choice([0, 1]), "megno", ["variational:megno"], user_dt=dt)
+            attempt("variational:megno", g)
+        # ---- 3 options
+        def opt_cases():
+            out = []
+            for coord in ("jacobi", "democraticheliocentric", "whds", "barycentric"):
+                for kern, corr in (("default", 0), ("default", 11), ("modifiedkick", 3), ("lazy", 5), ("composition", 0)):
+                    if coord != "jacobi" and (kern != "default" or corr != 0):
+                        continue
+                    for safe in (1, 0):
+                        out.append(("whfast", dict(coordinates=coord, kernel=kern, corrector=corr, safe_mode=safe)))
+            out.append(("whfast", dict(coordinates="jacobi", kernel="default", corrector=17, safe_mode=0, keep_unsynchronized=1)))
+            out.append(("whfast", dict(coordinates="democraticheliocentric", kernel="default", corrector=0, safe_mode=0, keep_unsynchronized=1)))
+            for typ in ("(10,6,4)", "CL(4)", "4", "(8,6,4)"):
+                for safe in (1, 0):
+                    out.append(("saba", dict(type=typ, safe_mode=safe)))
+            for phi0, phi1 in (("LF", "LF"), ("LF4", "LF"), ("LF8", "LF4"), ("PMLF6", "LF")):
+                for safe in (1, 0):
+                    out.append(("eos", dict(phi0=phi0, phi1=phi1, safe_mode=safe)))
+            for L in ("mercury", "infinity", "C4", "C5"):
+                for safe in (1, 0):
+                    out.append(("mercurius", dict(L=L, safe_mode=safe, r_crit_hill=(3.0 if safe else 5.0))))
+            for pm in ("FULL_IAS15", "PARTIAL_BS", "FULL_BS"):
+                out.append(("trace", dict(peri_mode=pm)))
+            return out
+        for integ, o in opt_cases():
+            def f(integ=integ, o=o):
+                rng = c.rng.fork()
+                dt = rng.choice([0.05, 0.1]) * (1 if integ == "trace" else rng.choice([1, -1]))
+                sim = planets(integ, rng, dt)
+                names = []
+                if integ == "whfast":
+                    w = sim.ri_whfast
+                    w.coordinates = o["coordinates"]; w.kernel = o["kernel"]; w.corrector = o["corrector"]; w.safe_mode = o["safe_mode"]
+                    if o.get("keep_unsynchronized"):
+                        w.keep_unsynchronized = 1; names.append("options:keep_unsynchronized")
+                    names.append("options:whfast_coordinates_kernel_corrector")
+                elif integ == "saba":
+                    sim.ri_saba.type = o["type"]; sim.ri_saba.safe_mode = o["safe_mode"]; names.append("options:saba_type")
+                elif integ == "eos":
+                    sim.ri_eos.phi0 = o["phi0"]; sim.ri_eos.phi1 = o["phi1"]; sim.ri_eos.safe_mode = o["safe_mode"]; names.append("options:eos_phi")
+                elif integ == "mercurius":
+                    sim.ri_mercurius.L = o["L"]; sim.ri_mercurius.safe_mode = o["safe_mode"]; sim.ri_mercurius.r_crit_hill = o["r_crit_hill"]
+                    names.append("options:mercurius_L_rcrit")
+                elif integ == "trace":
+                    sim.ri_trace.peri_mode = o["peri_mode"]; names.append("options:trace_peri")
+                if o.get("safe_mode") == 0:
+                    names.append("options:safe_mode0")
+                sg, tmax = targets_for(rng, dt)
+                if integ == "trace":
+                    tmax = abs(tmax)
+                # two consecutive calls: the second starts from whatever synchronisation state the first left
+                xcall(integ, sim, tmax, 1, "options", names, user_dt=dt)
+                xcall(integ, sim, tmax + (1 if tmax > 0 else -1) * abs(dt) * 3.3, rng.choice([0, 1]), "options", names, user_dt=dt)
+            attempt(["options:" + integ], f)
+        for integ in ["whfast", "leapfrog", "ias15", "mercurius", "saba"]:
+            def f(integ=integ):
+                rng = c.rng.fork()
+                dt = rng.choice([0.01, 0.02]) * rng.choice([1, -1])
+                sim = planets(integ, rng, dt, G=4 * math.pi ** 2)
+                sim.softening = 0.01
+                sg, tmax = targets_for(rng, dt)
+                xcall(integ, sim, tmax, rng.choice([0, 1]), "G_softening", ["options:G_softening"], user_dt=dt)
+            attempt("options:G_softening", f)
+
+        def fj():
+            rng = c.rng.fork()
+            dt = 0.01 * rng.choice([1, -1])
+            sim = planets("janus", rng, dt)
+            sim.ri_janus.scale_pos = 1e-13; sim.ri_janus.scale_vel = 3e-15; sim.ri_janus.order = rng.choice([2, 4, 6])
+            sg, tmax = targets_for(rng, dt)
+            xcall("janus", sim, tmax, rng.choice([0, 1]), "janus_scales", ["options:janus_scales"], user_dt=dt)
+        attempt("options:janus_scales", fj)
+        # ---- 4 time
+        for integ in xin:
+            def f(integ=integ):
+                rng = c.rng.fork()
+                dt = rng.choice([0.05, 0.1]) * rng.choice([1, -1])
+                sim = planets(integ, rng, dt) if integ != "sei" else H.make_sim("sei", 0.0, dt, rng)
+                fwd_only = integ == "trace"
+                seq = [1.03, 0.42, 2.5, -0.77, 0.0, 1.0] if not fwd_only else [1.03, 2.5, 2.5, 3.1]
+                for tg in seq:                 # direction changes between calls; every integrator sees dt of either sign against either target
+                    xcall(integ, sim, tg, rng.choice([0, 1, 1]), "reversal", ["time:reversal_between_calls", "time:dt_sign_vs_target_all_integrators"], user_dt=dt)
+            attempt("time:reversal_between_calls", f)
+        for integ in ["whfast", "saba", "mercurius", "leapfrog", "eos", "janus", "trace", "ias15", "bs"]:
+            def f(integ=integ):
+                rng = c.rng.fork()
+                dt = rng.uniform(7.0, 25.0) * (1 if integ == "trace" else rng.choice([1, -1]))      # longer than the inner period 2 pi
+                sim = planets(integ, rng, dt)
+                sg, tmax = targets_for(rng, dt)
+                if integ == "trace":
+                    tmax = abs(tmax)
+                xcall(integ, sim, tmax, rng.choice([0, 1]), "long_step", ["time:step_longer_than_period"], user_dt=dt)
+            attempt("time:step_longer_than_period", f)
+        for integ in ["leapfrog", "whfast", "sei", "saba", "none", "eos", "mercurius", "janus"]:
+            def f(integ=integ):
+                rng = c.rng.fork()
+                dt = rng.choice([0.1, 0.01, 0.003]) * rng.choice([1, -1])
+                t0 = rng.choice([1, -1]) * 10.0 ** rng.randint(5, 9) * rng.uniform(1, 9)          # |t|/dt from 1e6 to 3e12
+                sim = H.make_sim(integ, t0, dt, rng)
+                tmax = t0 + rng.choice([1, -1]) * abs(dt) * (rng.randint(1, 6) + rng.choice([0.0, 0.41]))
+                for ex in (1, 0):
+                    xcall(integ, sim, tmax, ex, "huge_ratio", ["time:huge_t_over_dt"], user_dt=dt)
+                    tmax = sim.t + rng.choice([1, -1]) * abs(dt) * 2.6
+            attempt("time:huge_t_over_dt", f)
+        for integ in ["leapfrog", "whfast", "ias15", "none"]:
+            def f(integ=integ):
+                rng = c.rng.fork()
+                sim = H.make_sim(integ, 0.0, 0.1 * rng.choice([1, -1]), rng)
+                kb = rng.randint(2, 6)
+                rec = xcall(integ, sim, -math.inf, rng.choice([0, 1]), "minus_inf", ["time:tmax_minus_inf"], events={kb: {"user"}})
+                if rec["ret"] != 5 or len(rec["beats"]) != kb + 1 or not all(b2[0] <= b1[0] for b1, b2 in zip(rec["beats"], rec["beats"][1:])):
+                    fails.append(("minus-inf-target", "integrate(-inf) does not run backwards until stopped", dict(integrator=integ, status=rec["ret"])))
+            attempt("time:tmax_minus_inf", f)
+        # NaN target: refused by the argument check (if the source has it) or - finding C08-N4 - an endless backward integration
+        for integ in ["leapfrog", "ias15"]:
+            def f(integ=integ):
+                rng = c.rng.fork()
+                sim = H.make_sim(integ, 1.0, 0.1, rng)
+                rec = H.call(sim, math.nan, rng.choice([0, 1]), cap=60)
+                record(integ, rec, "dim:nan_target")
+                dim("time:nan_target")
+                if NAN_GUARD[0]:
+                    if rec["ret"] != 1 or rec["post"][4] != rec["pre"][4] or d2h(rec["post"][0]) != d2h(rec["pre"][0]):
+                        fails.append(("nan-target", "integrate(NaN) is not refused cleanly", dict(integrator=integ, status=rec["ret"], t=rec["post"][0])))
+                elif rec["capped"]:
+                    fails.append(("C08-N4:nan-target-runs-forever", "integrate(NaN) integrates backwards for ever (every comparison with the target is false)",
+                                  dict(integrator=integ, t0=1.0, dt=0.1, steps_before_the_heartbeat_stopped_it=rec["post"][4] - rec["pre"][4], t=rec["post"][0])))
+            attempt("time:nan_target", f)
+        # ---- 5 callbacks
+        for integ in ["leapfrog", "whfast", "ias15", "mercurius", "saba", "eos", "bs"]:
+            def f(integ=integ):
+                rng = c.rng.fork()
+                dt = rng.choice([0.05, 0.1]) * rng.choice([1, -1])
+                sim = planets(integ, rng, dt)
+                seen = {"pre": 0, "post": 0, "af": 0}
+
+                def pre(sp): seen["pre"] += 1
+                def post(sp):
+                    seen["post"] += 1
+                    sp.contents.particles[2].vz += 1e-12          # an editing modification (physics only)
+                def af(sp): seen["af"] += 1
+                sim.pre_timestep_modifications = pre
+                sim.post_timestep_modifications = post
+                sim.additional_forces = af
+                sg, tmax = targets_for(rng, dt)
+                rec = xcall(integ, sim, tmax, rng.choice([0, 1]), "callbacks", ["callbacks:pre_post_modifications", "callbacks:additional_forces"], user_dt=dt)
+                nst = rec["post"][4] - rec["pre"][4]
+                if seen["pre"] != nst or seen["post"] != nst or (seen["af"] < nst):
+                    fails.append(("callback-count", "pre/post_timestep_modifications not called once per step",
+                                  dict(integrator=integ, steps=nst, **seen)))
+            attempt("callbacks:pre_post_modifications", f)
+        for integ in ["leapfrog", "whfast", "ias15"]:
+            def f(integ=integ):
+                rng = c.rng.fork()
+                dt = 0.05 * rng.choice([1, -1])
+                sim = planets(integ, rng, dt)
+                sim.particles[1].r = 0.3; sim.particles[2].r = 0.3
+                sim.collision = "direct"
+                calls = [0]
+
+                def resolver(sp, col):
+                    calls[0] += 1
+                    return 0
+                sim.collision_resolve = resolver
+                sg, tmax = targets_for(rng, dt)
+                xcall(integ, sim, tmax, rng.choice([0, 1]), "py_resolver", ["callbacks:python_collision_resolve"], user_dt=dt)
+            attempt("callbacks:python_collision_resolve", f)
+        for integ in ["leapfrog", "whfast", "ias15", "saba", "none"]:
+            for code, flag in ((3, F_ENC), (4, F_ESC), (5, F_USER)):
+                def f(integ=integ, code=code, flag=flag):
+                    rng = c.rng.fork()
+                    dt = 0.1 * rng.choice([1, -1])
+                    sim = H.make_sim(integ, 0.0, dt, rng)
+                    kb = rng.randint(0, 5)
+                    state = {"n": 0}
+
+                    def cond(q):
+                        state["n"] += 1
+                        if state["n"] - 1 == kb:
+                            q._status = code          # the user's heartbeat writes the status member directly
+                            return flag
+                        return 0
+                    rec = xcall(integ, sim, dt * 8.5, rng.choice([0, 1]), "hb_status", ["callbacks:heartbeat_edits_status"], user_dt=dt, conds=cond)
+                    if rec["ret"] != code or len(rec["beats"]) != kb + 1:
+                        fails.append(("status-first-boundary", "status written by the heartbeat is not returned at that boundary",
+                                      dict(integrator=integ, written=code, boundary=kb, returned=rec["ret"], heartbeats=len(rec["beats"]))))
+                attempt("callbacks:heartbeat_edits_status", f)
+
+        def fpm():
+            # a post_timestep_modification that rescales dt: for the loop this is an adaptive integrator (model: observed dt per step)
+            rng = c.rng.fork()
+            dt = 0.1 * rng.choice([1, -1])
+            sim = H.make_sim("saba", 0.0, dt, rng)
+
+            def post(sp):
+                q = sp.contents
+                q.dt = q.dt * (1.3 if q.steps_done % 2 == 0 else 0.9)
+            sim.post_timestep_modifications = post
+            sg, tmax = targets_for(rng, dt)
+            rec = H.call(sim, tmax * 3, 1)
+            # (SABA does t += dt with the dt of the step; the edited dt is what the heartbeat sees: observed-step-size tie)
+            ln = model_line("adaptive", rec)
+            lines.append(ln); expect.append(expected_answer(rec)); meta.append(("ias15", "dim:post_edits_dt", rec))
+            dim("callbacks:post_modification_edits_dt")
+            if rec["ret"] == 0 and not abs(rec["post"][0] - rec["tmax"]) <= 1e-12 * abs(rec["tmax"]):
+                fails.append(("exact-finish", "exact finish lost when a post_timestep_modification edits dt", dict(t=rec["post"][0], tmax=rec["tmax"])))
+        attempt("callbacks:post_modification_edits_dt", fpm)
+        # ---- 6 histories
+        def fsw():
+            rng = c.rng.fork()
+            dt = 0.05 * rng.choice([1, -1])
+            sim = planets("whfast", rng, dt)
+            t = 0.0
+            order = ["whfast", "ias15", "leapfrog", "mercurius", "saba", "bs", "eos", "whfast", "janus", "none"]
+            rng.shuffle(order)
+            for i, integ in enumerate(order[:6]):
+                if rng.chance(0.5):
+                    sim.reset_integrator()          # (also puts the integrator back to IAS15: select afterwards)
+                sim.integrator = integ
+                if KIND[integ] != "adaptive":
+                    sim.dt = math.copysign(0.05, sim.dt)
+                t += abs(dt) * (3 + 0.37 * i)
+                xcall(integ, sim, t * (1 if dt > 0 else -1), rng.choice([0, 1, 1]), "switch", ["history:integrator_switch"],
+                      user_dt=(0.05 if KIND[integ] != "adaptive" else None))
+        attempt("history:integrator_switch", fsw)
+        for integ in ["whfast", "ias15", "leapfrog", "mercurius", "saba"]:
+            def f(integ=integ):
+                rng = c.rng.fork()
+                dt = 0.05 * rng.choice([1, -1])
+                sim = planets(integ, rng, dt, n_test=1)
+                sgn = 1 if dt > 0 else -1
+                xcall(integ, sim, sgn * 0.52, 1, "addremove", ["history:particles_added_removed"], user_dt=dt)
+                sim.add(m=1e-6, a=5.0)
+                xcall(integ, sim, sgn * 0.93, rng.choice([0, 1]), "addremove", ["history:particles_added_removed"], user_dt=dt)
+                sim.remove(index=2)
+                xcall(integ, sim, sgn * 1.61, 1, "addremove", ["history:particles_added_removed"], user_dt=dt)
+                sim.synchronize()
+                xcall(integ, sim, sgn * 2.0, rng.choice([0, 1]), "sync", ["history:explicit_synchronize"], user_dt=dt)
+            attempt("history:particles_added_removed", f)
+        # restore paths: the flag of an earlier exact_finish_time=0 call is persisted; the default of the next call must still be exact
+        for integ in ["whfast", "leapfrog", "ias15", "mercurius", "saba", "eos", "bs", "trace", "janus"]:
+            for path in ("copy", "pickle", "file", "archive"):
+                def f(integ=integ, path=path):
+                    rng = c.rng.fork()
+                    dt = 0.05 * (1 if integ == "trace" else rng.choice([1, -1]))
+                    sgn = 1 if dt > 0 else -1
+                    sim = planets(integ, rng, dt)
+                    sim.integrate(sgn * 0.52, exact_finish_time=0)
+                    if path == "copy":
+                        s2 = sim.copy()
+                    elif path == "pickle":
+                        s2 = pickle.loads(pickle.dumps(sim))
+                    else:
+                        fn = os.path.join(d, "c08_restore_%s_%d.bin" % (integ, rng.next() % 10 ** 9))
+                        sim.save_to_file(fn, delete_file=True)
+                        s2 = rebound.Simulation(fn) if path == "file" else rebound.Simulationarchive(fn)[-1]
+                    tgt = s2.t + sgn * abs(dt) * 4.37
+                    s2.integrate(tgt)                       # default argument on the restored simulation
+                    dim("restore:" + path)
+                    c.count(("dim", "restore", integ, path))
+                    if not abs(s2.t - tgt) <= 1e-12 * abs(tgt):
+                        fails.append(("python-default-exact-finish", "Simulation.integrate(tmax) on a simulation restored by %s after an "
+                                      "exact_finish_time=0 call did not end at tmax" % path,
+                                      dict(integrator=integ, path=path, t_end=s2.t, tmax=tgt, dt=dt)))
+                    # and the raw loop on the restored simulation ties with the model
+                    xcall(integ, s2, s2.t + sgn * abs(dt) * 2.5, rng.choice([0, 1]), "restored", ["restore:" + path],
+                          user_dt=(dt if KIND[integ] != "adaptive" else None))
+                attempt("restore:" + path, f)
+        # ---- 7 geometry
+        for integ in ["whfast", "leapfrog", "ias15", "mercurius", "saba"]:
+            def f(integ=integ):
+                rng = c.rng.fork()
+                dt = 0.05
+                sim = planets(integ, rng, dt, com_shift=True)
+                maxd = 125.0                  # the whole system drifts out of the sphere (distances are measured from the origin)
+                sim.exit_max_distance = maxd
+                rec = xcall(integ, sim, 20.0, rng.choice([0, 1]), "moving_com", ["geometry:moving_com"], user_dt=dt, conds=cond_fn(maxd, 0.0, False))
+                k, st = first_firing(rec)
+                if rec["ret"] != (st if st is not None else 0) or (k is not None and len(rec["beats"]) != k + 1):
+                    fails.append(("status-first-boundary", "escape of a drifting system not reported at the first boundary",
+                                  dict(integrator=integ, returned=rec["ret"], expected=st, boundary=k, heartbeats=len(rec["beats"]))))
+            attempt("geometry:moving_com", f)
+        for integ in ["leapfrog", "ias15", "eos"]:
+            def f(integ=integ):
+                rng = c.rng.fork()
+                dt = 0.1
+                sim = rebound.Simulation()
+                sim.integrator = integ
+                sim.gravity = "none"
+                sim.configure_box(4.0)
+                sim.boundary = "open"
+                for i in range(3):
+                    sim.add(m=0.0, x=rng.uniform(-0.5, 0.5), y=rng.uniform(-0.5, 0.5), vx=rng.choice([1, -1]) * rng.uniform(0.8, 2.0), vy=rng.uniform(-1, 1))
+                sim.dt = dt
+                if integ == "ias15":
+                    sim.ri_ias15.epsilon = 0
+                rec = xcall(integ, sim, 30.0, rng.choice([0, 1]), "open_boundary", ["geometry:open_boundary_removes_all"], user_dt=dt)
+                k, st = first_firing(rec)
+                if rec["ret"] != 2 or st != 2 or len(rec["beats"]) != k + 1:
+                    fails.append(("status-first-boundary", "all particles removed by the open boundary: NO_PARTICLES not returned at that boundary",
+                                  dict(integrator=integ, returned=rec["ret"], first_empty_boundary=k, heartbeats=len(rec["beats"]))))
+            attempt("geometry:open_boundary_removes_all", f)
+        for integ in ["leapfrog", "ias15", "whfast"]:
+            def f(integ=integ):
+                rng = c.rng.fork()
+                dt = 0.02
+                sim = planets(integ, rng, dt)
+                sim.add(m=1e-4, a=1.0, f=sim.particles[1].f + 0.05, r=0.05)
+                sim.particles[1].r = 0.05
+                sim.collision = "direct"
+                sim.collision_resolve = "merge"
+                n0 = sim.N
+                rec = xcall(integ, sim, 3.03, rng.choice([0, 1]), "merge", ["geometry:merge_reduces_N"], user_dt=dt)
+            attempt("geometry:merge_reduces_N", f)
+        # ---- 8 Python layer: how the arguments are passed
+        try:
+            import numpy as np
+        except Exception:
+            np = None
+        for integ in ["whfast", "leapfrog", "ias15", "mercurius"]:
+            def f(integ=integ):
+                rng = c.rng.fork()
+                dt = 0.05
+                forms = [("python:positional", lambda s_, t_: s_.integrate(t_, 1), 1), ("python:positional", lambda s_, t_: s_.integrate(t_, 0), 0),
+                         ("python:keyword", lambda s_, t_: s_.integrate(tmax=t_), 1), ("python:keyword", lambda s_, t_: s_.integrate(tmax=t_, exact_finish_time=0), 0),
+                         ("python:keyword", lambda s_, t_: s_.integrate(exact_finish_time=1, tmax=t_), 1),
+                         ("python:bool_and_int_values", lambda s_, t_: s_.integrate(t_, exact_finish_time=True), 1),
+                         ("python:bool_and_int_values", lambda s_, t_: s_.integrate(t_, exact_finish_time=False), 0),
+                         ("python:numpy_and_int_targets", lambda s_, t_: s_.integrate(int(math.ceil(t_))), 1)]
+                if np is not None:
+                    forms += [("python:numpy_and_int_targets", lambda s_, t_: s_.integrate(np.float64(t_)), 1),
+                              ("python:numpy_and_int_targets", lambda s_, t_: s_.integrate(np.float32(t_)), 1)]
+                sim = planets(integ, rng, dt)
+                prev0 = False
+                for name, call, expect_exact in forms:
+                    tgt = sim.t + dt * (rng.randint(2, 5) + 0.37)
+                    before = sim.t
+                    call(sim, tgt)
+                    dim(name)
+                    c.count(("dim", "pyform", integ, name))
+                    # the target as the C side received it
+                    eff = float(np.float32(tgt)) if (np is not None and "float32" in repr(call.__code__.co_names)) else (float(int(math.ceil(tgt))) if "ceil" in call.__code__.co_names else tgt)
+                    if expect_exact:
+                        okp = abs(sim.t - eff) <= 1e-12 * abs(eff)
+                    else:
+                        okp = 0 <= sim.t - eff < dt * (1 + 1e-9) or KIND[integ] == "adaptive" and sim.t >= eff
+                    if not okp:
+                        fails.append(("python-argument-forms", "Simulation.integrate called as %s ended at %r for target %r" % (name, sim.t, eff),
+                                      dict(integrator=integ, form=name, t_end=sim.t, target=eff, expect_exact=expect_exact)))
+                # -0.0 as a target from a negative time: must end at zero exactly
+                sim2 = planets(integ, rng, dt)
+                sim2.integrate(-0.12)
+                sim2.integrate(-0.0)
+                dim("python:minus_zero_target")
+                if sim2.t != 0.0:
+                    fails.append(("python-argument-forms", "integrate(-0.0) did not end at zero", dict(integrator=integ, t_end=sim2.t)))
+            attempt("python:positional", f)
+        # ---- 9 scale
+        def fN():
+            rng = c.rng.fork()
+            sim = rebound.Simulation()
+            sim.integrator = "leapfrog"
+            sim.gravity = "none"
+            for i in range(140):
+                sim.add(m=0.0, x=rng.uniform(-1, 1), y=rng.uniform(-1, 1), vx=rng.uniform(-0.2, 0.2), vy=rng.uniform(-0.2, 0.2))
+            sim.particles[137].vx = 2.5
+            sim.exit_max_distance = 3.0
+            sim.dt = 0.1
+            rec = xcall("leapfrog", sim, 5.0, 1, "N140", ["scale:N_over_128"], user_dt=0.1, conds=cond_fn(3.0, 0.0, False))
+            k, st = first_firing(rec)
+            if rec["ret"] != 4 or st != 4 or len(rec["beats"]) != k + 1:
+                fails.append(("status-first-boundary", "escape of particle 137 of 140 not reported at the first boundary", dict(returned=rec["ret"], expected_boundary=k)))
+        attempt("scale:N_over_128", fN)
+
+    c.cov["dimensions"] = {k: dims.get(k, 0) for k in DIM_NAMES}
+    c.cov["dimension_setup_errors"] = dim_errors
+    for k in DIM_NAMES:
+        if dims.get(k, 0) == 0:
+            c.corr_break("dimension %s not covered%s" % (k, (" (" + dim_errors[k] + ")") if k in dim_errors else ""))
 
     # ------------------------------------------------------------------ model vs implementation
     c.log("running %d integrate calls through drv_c08" % len(lines))
